@@ -318,7 +318,9 @@ var c30Families = []string{
 }
 
 // c30Dev is one deviation. Op: del, dup, swap, trunc (keep the first I lines), val (replace the
-// value of line I by nasty N), tok (replace token J of the value of line I by nasty N), fdel / fren
+// value of line I by nasty N), tok (replace token J of the value of line I by nasty N), tdel
+// (delete token J), tcut (keep the first J tokens), sep (at the J-th separator character of the
+// value: N=0 duplicate it, N=1 cut the value after it), fdel / fren
 // (delete / rename to x-<family> every line of attribute family Fam).
 type c30Dev struct {
 	Op  string `json:"op"`
@@ -368,6 +370,25 @@ func c30IsFamily(line, fam string) bool {
 	return line == "a="+fam || strings.HasPrefix(line, "a="+fam+":")
 }
 
+// c30SepOffsets returns the offsets of the separator characters of a value.
+func c30SepOffsets(v string) []int {
+	var out []int
+	colons := 0
+	for i := 0; i < len(v); i++ {
+		switch v[i] {
+		case ';', ',', '/', '=':
+			out = append(out, i)
+		case ':':
+			if colons < 2 {
+				out = append(out, i)
+			}
+			colons++
+		}
+	}
+
+	return out
+}
+
 // c30Devs enumerates all single deviations of the seed lines. tok operators only when withTok.
 func c30Devs(lines []string, withTok bool) []c30Dev {
 	var out []c30Dev
@@ -398,6 +419,35 @@ func c30Devs(lines []string, withTok bool) []c30Dev {
 			out = append(out, c30Dev{Op: "trunc", I: i})
 		}
 	}
+	// token structure of multi-token values: delete token J, keep only the first J tokens
+	for i, l := range lines {
+		at := c30ValueAt(l)
+		if at < 0 {
+			continue
+		}
+		n := len(strings.Split(l[at:], " "))
+		if n < 2 {
+			continue
+		}
+		for j := 0; j < n; j++ {
+			out = append(out, c30Dev{Op: "tdel", I: i, J: j})
+			if j > 0 {
+				out = append(out, c30Dev{Op: "tcut", I: i, J: j})
+			}
+		}
+	}
+	// list structure inside values: at the K-th separator character (";" "," "/" "=", and the
+	// first two ":") duplicate it (an empty element) or cut the value right after it (a missing
+	// element at the end)
+	for i, l := range lines {
+		at := c30ValueAt(l)
+		if at < 0 {
+			continue
+		}
+		for k := range c30SepOffsets(l[at:]) {
+			out = append(out, c30Dev{Op: "sep", I: i, J: k, N: 0}, c30Dev{Op: "sep", I: i, J: k, N: 1})
+		}
+	}
 	if withTok {
 		for i, l := range lines {
 			at := c30ValueAt(l)
@@ -424,13 +474,17 @@ func c30Apply(lines []string, d c30Dev) []string {
 	out := make([]string, 0, len(lines)+1)
 	// a second deviation may meet a text in which its address no longer exists: then it is void
 	switch d.Op {
-	case "del", "dup", "val", "tok":
+	case "sep":
+		if d.I >= len(lines) || c30ValueAt(lines[d.I]) < 0 || d.J >= len(c30SepOffsets(lines[d.I][c30ValueAt(lines[d.I]):])) {
+			return lines
+		}
+	case "del", "dup", "val", "tok", "tdel", "tcut":
 		if d.I >= len(lines) {
 			return lines
 		}
-		if at := c30ValueAt(lines[d.I]); (d.Op == "val" || d.Op == "tok") && at < 0 {
+		if at := c30ValueAt(lines[d.I]); d.Op != "del" && d.Op != "dup" && at < 0 {
 			return lines
-		} else if d.Op == "tok" && d.J >= len(strings.Split(lines[d.I][at:], " ")) {
+		} else if (d.Op == "tok" || d.Op == "tdel" || d.Op == "tcut") && d.J >= len(strings.Split(lines[d.I][at:], " ")) {
 			return lines
 		}
 	case "swap":
@@ -462,6 +516,27 @@ func c30Apply(lines []string, d c30Dev) []string {
 		at := c30ValueAt(out[d.I])
 		toks := strings.Split(out[d.I][at:], " ")
 		toks[d.J] = c30Nasty[d.N]
+		out[d.I] = out[d.I][:at] + strings.Join(toks, " ")
+	case "sep":
+		out = append(out, lines...)
+		at := c30ValueAt(out[d.I])
+		v := out[d.I][at:]
+		o := c30SepOffsets(v)[d.J]
+		if d.N == 0 {
+			v = v[:o+1] + v[o:]
+		} else {
+			v = v[:o+1]
+		}
+		out[d.I] = out[d.I][:at] + v
+	case "tdel", "tcut":
+		out = append(out, lines...)
+		at := c30ValueAt(out[d.I])
+		toks := strings.Split(out[d.I][at:], " ")
+		if d.Op == "tdel" {
+			toks = append(toks[:d.J:d.J], toks[d.J+1:]...)
+		} else {
+			toks = toks[:d.J]
+		}
 		out[d.I] = out[d.I][:at] + strings.Join(toks, " ")
 	case "fdel":
 		for _, l := range lines {
@@ -505,6 +580,8 @@ func c30DevFamily(lines []string, d c30Dev) (op, kind string) {
 		return d.Op, d.Fam
 	case "val", "tok":
 		return d.Op + ":" + c30NastyNames[d.N], c30LineKind(lines[d.I])
+	case "tdel", "tcut", "sep":
+		return d.Op, c30LineKind(lines[d.I])
 	case "trunc":
 		return d.Op, "-"
 	default:
@@ -625,8 +702,8 @@ func c30BuildEnv(seeds []c30Seed, thorough bool, nCands int) *c30Env {
 	for si := range seeds {
 		s := &seeds[si]
 		lines := c30Lines(s.SDP)
-		// token operators: quick tier only for the small seeds and the fixtures
-		devs := c30Devs(lines, thorough || len(lines) <= 30 || strings.HasPrefix(s.Name, "fix-"))
+		// token replacement operators: quick tier only for the small seeds
+		devs := c30Devs(lines, thorough || len(lines) <= 30)
 		for sem := range c30Sems {
 			for _, m := range c30Modes {
 				add(&c30Job{seed: s, lines: lines, devs: devs, sem: sem, mode: m})
@@ -1520,7 +1597,7 @@ func (p *c30Parent) runBatch(w, nw, lo, hi int, tag string, results chan<- c30Re
 // c30OpClass coarsens the operator to the class used in violation keys.
 func c30OpClass(op string) string {
 	switch c30OpBase(op) {
-	case "val", "tok":
+	case "val", "tok", "tdel", "tcut", "sep":
 		return "value"
 	case "del", "dup", "swap", "trunc":
 		return "line"
